@@ -58,11 +58,7 @@ def flat(cid, o):
         val, dups = apidoc.parse_pairs(text)
     except ValueError as e:
         return {"id": cid, "invalid_json": str(e)}
-    try:
-        text.encode("utf-8")
-        utf8 = True
-    except UnicodeError:
-        utf8 = False
+    utf8 = o.get("json_utf8", True) is not False          # judged by the harness on the bytes the library returned
     used, enums, bodies = [], [], []
     nobody = 0
     inters = []
@@ -128,6 +124,9 @@ def stress_docs():
     # both become U+FFFD ("\xff" in these texts stands for the byte: the file is written in Latin-1)
     res.append('JSIGHT 0.3\nGET /a\xff\n  200 any\nGET /a\xfe\n  200 any\n')
     res.append('JSIGHT 0.3\nTYPE @t\xff any\nTYPE @t\xfe any\nGET /ok\n  200 @t\xff\n')
+    # bytes that are not valid UTF-8 wherever a schema can hold text: notes, keys, values, type names, enum values
+    res.append('JSIGHT 0.3\nTYPE @caf\xe9\n{\n  "cl\xe9": "val\xe9", // note \xe9\n  "n": 1, // {min: 0} not\xe9\n  "r": @caf\xe9 // {optional: true}\n}\n'
+               'ENUM @e\n[\n  "v\xe9", // n\xe9\n  2\n]\nGET /ok // ann\xe9\n  Description\n    d\xe9sc\n  Query "q=\xe9"\n  {\n    "q": "\xe9" // {enum: @e}\n  }\n  200 @caf\xe9\n')
     # tags with descriptions, declared before and after the interactions that carry them, at every level
     for order in (0, 1):
         tags = 'TAG @t1 // first\n  Description\n    text of t1\nTAG @t2\n  Description\n  (\n    text of t2\n  )\nTAG @t3\n'
